@@ -144,6 +144,7 @@ func (s *SerialDB) Put(key, val []byte) error {
 	s.mutBatch.RLock()
 	err := s.batch.Put(key, val)
 	s.mutBatch.RUnlock()
+	verifPause("serial.put.afterBatchPut")
 	if err != nil {
 		return err
 	}
@@ -170,6 +171,7 @@ func (s *SerialDB) Get(key []byte) ([]byte, error) {
 		return data, nil
 	}
 
+	verifPause("serial.get.beforeDiskRead")
 	ch := make(chan *pairResult)
 	req := &getAct{
 		key:     key,
@@ -212,6 +214,7 @@ func (s *SerialDB) Has(key []byte) error {
 		return nil
 	}
 
+	verifPause("serial.has.beforeDiskRead")
 	ch := make(chan error)
 	req := &hasAct{
 		key:     key,
@@ -248,6 +251,7 @@ func (s *SerialDB) putBatch() error {
 		return common.ErrInvalidBatch
 	}
 
+	verifPause("serial.putBatch.beforeWrite")
 	ch := make(chan error)
 	req := &putBatchAct{
 		batch:   dbBatch,
@@ -264,6 +268,7 @@ func (s *SerialDB) putBatch() error {
 		return result
 	}
 
+	verifPause("serial.putBatch.afterWrite")
 	s.sizeBatch = 0
 	s.batch = NewBatch()
 	return nil
